@@ -114,6 +114,9 @@ Inductive spec :=
 | STrace (labels : list (nat * Z)) (pass1 : list (nat * Z)) (emit : list (nat * Z * nat * Z))
 (* C03: emission trace, resolver.pc at the end, built-in mapping in force *)
 | SBlocks (high : bool) (user_map : bool) (ns : list tnode) (end_pc : Z)
+(* C13 in a program: as SBlocks, and the patch records handed over by the directives, in order, are [expected]
+   (each record of the file at its offset + the delta the directive's expression has where it stands) *)
+| SBlocksI (high : bool) (user_map : bool) (ns : list tnode) (end_pc : Z) (expected : list (bytes * Z))
 (* C08-C10, C16: the twin program's observed output must be the same (labels too when asked) *)
 | STwin (twin : obs asmobs) (with_labels : bool)
 (* C08: the last three bytes written are the value of label [name] (a reference to scope.name) *)
@@ -203,6 +206,14 @@ Definition spec_ok (s : spec) (impl : obs asmobs) : bool :=
       | OOk (blocks, _) =>
           list_eqb wblock_eqb (cut_spec ns end_pc [] 0) blocks
           && (user_map || offsets_ok high ns false) && pcs_ok ns end_pc && (user_map || ram_org_ok high ns)
+      | _ => true
+      end
+  | SBlocksI high user_map ns end_pc expected =>
+      match impl with
+      | OOk (blocks, _) =>
+          list_eqb wblock_eqb (cut_spec ns end_pc [] 0) blocks
+          && (user_map || offsets_ok high ns false) && pcs_ok ns end_pc && (user_map || ram_org_ok high ns)
+          && list_eqb wblock_eqb (flat_map tn_ips ns) expected
       | _ => true
       end
   | STwin twin with_labels =>
